@@ -145,7 +145,11 @@ class Expr:
 
     @classmethod
     def deserialize(cls, s: str) -> Expr:
-        return cls(sympy.parse_expr(s))
+        from pharmpy.internals.expr.funcs import PHI
+
+        # NOTE: Functions that are classes of pharmpy have to be given to the parser,
+        # otherwise they come back as undefined functions that only print the same
+        return cls(sympy.parse_expr(s, local_dict={'PHI': PHI}))
 
     def unicode(self) -> str:
         s = sympy.pretty(sympy.sympify(self._expr), wrap_line=False, use_unicode=True)
